@@ -275,9 +275,30 @@ func c14() []*Ob {
 						}
 						okSrc := true
 						for _, idx := range []int{1, 2} {
+							// ... and read after the sort: the load of the element is dominated by the sort call
 							fromSorted := DerivesFrom(RetOperand(ret, idx), func(v ssa.Value) bool {
-								ia, ok := v.(*ssa.IndexAddr)
-								return ok && sortedVals[ia.X]
+								u, ok := v.(*ssa.UnOp)
+								if !ok || u.Op != token.MUL {
+									return false
+								}
+								base := u.X
+								for {
+									fa, isFA := base.(*ssa.FieldAddr)
+									if !isFA {
+										break
+									}
+									base = fa.X
+								}
+								ia, ok := base.(*ssa.IndexAddr)
+								if !ok || !sortedVals[ia.X] {
+									return false
+								}
+								for _, sc := range CallsIn(fn, Callee("sort.Sort", "sort.Stable", "slices.SortFunc", "sort.Slice")) {
+									if Dominates(sc.(ssa.Instruction), u) {
+										return true
+									}
+								}
+								return false
 							})
 							if !fromSorted {
 								okSrc = false
@@ -347,8 +368,21 @@ func occupancyMapComplete(c *Ctx) {
 				}
 				extra++
 			}
-			if extra == 0 && InLoop(a.(ssa.Instruction).Block()) {
+			// every iteration of the id loop reaches Add: each back edge of its loop is dominated by the call
+			everyIter := true
+			if l := InnermostLoop(a.(ssa.Instruction).Block()); l != nil {
+				for _, pr := range l.Header.Preds {
+					if l.Blocks[pr] && !Dominates(a.(ssa.Instruction), pr.Instrs[len(pr.Instrs)-1]) {
+						everyIter = false
+					}
+				}
+			} else {
+				everyIter = false
+			}
+			if extra == 0 && everyIter {
 				c.Site(a.Pos(), "every id of the fraction is added to the occupancy map")
+			} else if !everyIter {
+				c.Violation("dom:BuildDistribution:every-id", a.Pos(), "some iteration of the id loop of BuildDistribution goes on to the next id without adding the current one: skipped ids leave their bucket clear and a narrow query on them prunes the fraction")
 			} else {
 				c.Violation("dom:BuildDistribution:every-id", a.Pos(), "BuildDistribution adds an id only under %d extra condition(s): skipped ids leave their bucket clear and a narrow query on them prunes the fraction", extra)
 			}
